@@ -7,6 +7,8 @@ import MosnVerif.Model.ReadLoopSpec
 import MosnVerif.Lemmas.DispatchCtx
 import MosnVerif.Model.DispatchCtxSpec
 import MosnVerif.Lemmas.FrameOwn
+import MosnVerif.Lemmas.H1Seg
+import MosnVerif.Lemmas.H1SegStable
 /-!
 # C07 — message extraction is independent of how TCP segments the byte stream (property theorems only)
 
@@ -559,5 +561,83 @@ example : (run .alias mem0 [.data 3 3 true, .refill mem1]).delivered.map (Body.r
 example : (run .copy mem0 [.data 3 2 false, .refill mem1, .data 0 1 true]).delivered.map (Body.read mem1) = some [1, 2, 7] := by decide
 
 end ContentOwnership
+
+/-! ### HTTP/1: the connection reader as a byte queue (kind `h1seg`; Model/H1Seg over Gen/H1SegOps) -/
+section Http1Queue
+open MosnVerif.Model.H1Seg MosnVerif.Lemmas.H1Seg MosnVerif.Lemmas.H1SegStable
+
+/-- regenerated from pkg/stream/http/stream.go: inside the loops of both `serve()` functions the connection's reader is
+only handed to the fasthttp parser (no Reset / Discard / re-creation when the loop comes round), `.br` is assigned in
+the two constructors only and used nowhere else, and the producer hands over every byte (`Read` drains what it copied,
+`Dispatch` repeats until its buffer is empty, they are the only users of the hand-over channel). -/
+theorem http1_queue_only_parsed :
+    rstOf serverUses = false ∧ rstOf clientUses = false ∧ producerAppendsAll = true := by decide
+
+/-- with the regenerated loop operations the serve loop over the queue IS the generic buffered dispatch loop -/
+theorem http1_serve_refines_dispatch {F : Type} (resp : Bool) (d : Bytes → Step F) (chunks : List Bytes) :
+    runQ (rstOf (if resp then clientUses else serverUses)) d chunks = run d chunks := by
+  have h := http1_queue_only_parsed
+  cases resp <;> simp [h.1, h.2.1, runQ_false]
+
+/-- **http1_segmentation_independent**: for EVERY parser oracle that is prefix-stable (given the queue prefix it answers
+need-more / a message consuming `n > 0` bytes / error, and a message or error is final on every extension), every byte
+stream and EVERY chunking of it — requests on the server stream connection (`resp = false`) and responses on the client
+stream connection — the serve loop ends with the same messages (count, boundaries, contents), the same unparsed rest
+and the same failed flag as when the whole stream arrives in one read. -/
+theorem http1_segmentation_independent {F : Type} (resp : Bool) (d : Bytes → Step F) (hs : Stable d) (chunks : List Bytes) :
+    runQ (rstOf (if resp then clientUses else serverUses)) d chunks
+      = runQ (rstOf (if resp then clientUses else serverUses)) d [chunks.flatten] := by
+  rw [http1_serve_refines_dispatch, http1_serve_refines_dispatch]; exact segmentation_independent d hs chunks
+
+/-- the reference framer of the generated message shapes (head up to CRLFCRLF, Content-Length, chunked) is such an oracle -/
+theorem http1_reference_parser_stable (resp : Bool) : Stable (h1Step resp) := h1Step_stable resp
+
+theorem http1_segmentation_independent_reference (resp : Bool) (c1 c2 : List Bytes) (h : c1.flatten = c2.flatten) :
+    runQ (rstOf (if resp then clientUses else serverUses)) (h1Step resp) c1
+      = runQ (rstOf (if resp then clientUses else serverUses)) (h1Step resp) c2 := by
+  rw [http1_serve_refines_dispatch, http1_serve_refines_dispatch]
+  exact segmentation_irrelevant _ (h1Step_stable resp) c1 c2 h
+
+/-- a concatenation of complete messages plus an incomplete tail, in every chunking: exactly the messages, in order,
+each once; the tail stays in the queue -/
+theorem http1_valid_stream_delivered (resp : Bool) (d : Bytes → Step Bytes) (hs : Stable d) (fs : List Bytes) (t : Bytes)
+    (hv : ∀ f ∈ fs, d f = .frame f f.length) (ht : TailOk d t)
+    (chunks : List Bytes) (hc : chunks.flatten = fs.flatten ++ t) :
+    runQ (rstOf (if resp then clientUses else serverUses)) d chunks = { buf := t, out := fs, failed := false } := by
+  rw [http1_serve_refines_dispatch]; exact valid_stream_delivered d hs fs t hv ht chunks hc
+
+/-- the executable predicate `specH1` holds of the model: in every chunking the model hands on what it hands on for the
+whole stream, which is what the reference framer finds in the stream -/
+theorem spec_h1seg_holds_on_model (resp : Bool) (chunks : List Bytes) (full : Bytes → String) :
+    let rst := rstOf (if resp then clientUses else serverUses)
+    let m := runQ rst (h1Step resp) chunks
+    let w := runQ rst (h1Step resp) [chunks.flatten]
+    specH1 resp chunks.flatten (w.out.map full) (m.out.map full) (m.out.map (descr resp))
+      (if w.failed then "err" else "ok") (if m.failed then "err" else "ok") = true := by
+  intro rst m w
+  have hm : m = w := http1_segmentation_independent resp (h1Step resp) (h1Step_stable resp) chunks
+  have hw : w = run (h1Step resp) [chunks.flatten] := http1_serve_refines_dispatch resp (h1Step resp) [chunks.flatten]
+  simp [specH1, hm, hw]
+
+-- non-vacuity and the negation witness: two pipelined requests `GET /a` `GET /b`
+def h1A : Bytes := [71,69,84,32,47,97,32,72,84,84,80,47,49,46,49,13,10,13,10]
+def h1B : Bytes := [71,69,84,32,47,98,32,72,84,84,80,47,49,46,49,13,10,13,10]
+example : h1Step false h1A = .frame h1A h1A.length := by decide
+example : h1Step false (h1A.take 17) = .needMore := by decide
+example : (runQ false (h1Step false) [h1A ++ h1B.take 5, h1B.drop 5]).out = [h1A, h1B] := by decide
+/-- reset-per-iteration (`conn.br.Reset(conn)` at the top of the loop) is NOT segmentation independent: when one read
+carries request 1 and request 2, request 2 is destroyed with the queue; when it carries request 1 and the first 5 bytes
+of request 2, parsing resumes in the middle of the request line (mis-framed: the second message is `b HTTP/1.1`). -/
+example : (runQ true (h1Step false) [h1A ++ h1B]).out = [h1A] ∧ (runQ true (h1Step false) [h1A, h1B]).out = [h1A, h1B] := by
+  decide
+example : (runQ true (h1Step false) [h1A ++ h1B.take 5, h1B.drop 5]).out = [h1A, h1B.drop 5] := by decide
+example : rstOf ["call:Reset", "arg:ReadLimitBody", "arg:ContinueReadBody"] = true ∧ rstOf ["assign", "arg:Read"] = true := by decide
+-- a POST with Content-Length 3 and a chunked PUT (chunks `2`, `0`) are framed by the reference parser
+def h1Post : Bytes := [80,79,83,84,32,47,120,32,72,84,84,80,47,49,46,49,13,10,67,111,110,116,101,110,116,45,76,101,110,103,116,104,58,32,51,13,10,13,10,97,98,99,71,69,84]
+example : h1Hdr false h1Post = .len 42 := by decide
+def h1Put : Bytes := [80,85,84,32,47,120,32,72,84,84,80,47,49,46,49,13,10,84,114,97,110,115,102,101,114,45,69,110,99,111,100,105,110,103,58,32,99,104,117,110,107,101,100,13,10,13,10,50,13,10,97,98,13,10,48,13,10,13,10,71,69]
+example : h1Hdr false h1Put = .len 59 := by decide
+
+end Http1Queue
 
 end MosnVerif.Props.C07
